@@ -33,6 +33,7 @@ for p in "$@"; do
 done
 git -C /repo checkout -- .
 rm -rf /verif/replays
+git -C /verif checkout -- evidence 2>/dev/null   # evidence written against a modified tree is not kept
 cat > "$out/meta.json" <<META
 {"seed": "$id", "demo_exit_with_change": $with, "demo_exit_without_change": $without, "suite_with_change": "$suite",
  "checks": {${results%, }}, "ran": "tools/seed_eval.sh $id $wt $*"}
